@@ -153,6 +153,18 @@ func init() {
 				}
 			}
 		}
+		// F65: where the ID is a hash, EventID() is never a value the sender wrote into the event
+		if ver != "1" && ver != "2" {
+			var top map[string]json.RawMessage
+			if json.Unmarshal(args[2], &top) == nil {
+				for k, v := range top {
+					var sv string
+					if strings.EqualFold(k, "event_id") && json.Unmarshal(v, &sv) == nil && sv == e.EventID() {
+						out = append(out, B("\nLEAK sender-chosen event ID")...)
+					}
+				}
+			}
+		}
 		id := "diff"
 		if e.EventID() == orig.EventID() {
 			id = "same"
@@ -300,9 +312,11 @@ func c04Build(c *Ctx, ver, typ string, variant int) c04Built {
 }
 
 type c04Tamper struct {
-	name  string
-	class string // r = redactable/stripped/unsigned only, p = protected material
-	apply func(m map[string]json.RawMessage)
+	name     string
+	class    string // r = redactable/stripped/unsigned only, p = protected material
+	apply    func(m map[string]json.RawMessage)
+	propOnly bool // the value model does not represent encoding/json's member matching: oracle only
+	prefix   string // members written in front of the marshalled event (repetitions cannot be put into a map)
 }
 
 func c04SetContent(m map[string]json.RawMessage, key string, val string, del bool) {
@@ -319,7 +333,7 @@ func c04Tamperings(c *Ctx, b c04Built, hashVariants bool) []c04Tamper {
 	ver, typ := b.ver, b.typ
 	var ts []c04Tamper
 	add := func(name, class string, f func(m map[string]json.RawMessage)) {
-		ts = append(ts, c04Tamper{name, class, f})
+		ts = append(ts, c04Tamper{name, class, f, false, ""})
 	}
 	cls := func(kept bool) string {
 		if kept {
@@ -476,6 +490,39 @@ func c04Tamperings(c *Ctx, b c04Built, hashVariants bool) []c04Tamper {
 			m["event_id"] = json.RawMessage(`"$forged:a"`)
 		}
 	})
+	// F67 (a): a member discarded on receipt written twice (three times): every copy is discarded,
+	// alone (the event comes back intact, without it) and together with a redactable fault
+	{
+		dups := [][2]string{{"unsigned", `{"redacted_because":{"x":"y"},"prev_content":{"a":1}}`}, {"age_ts", "12345"}, {"outlier", "true"},
+			{"destinations", `["evil.example"]`}}
+		if ver != "1" && ver != "2" {
+			dups = append(dups, [2]string{"event_id", `"$forged:a"`})
+		}
+		if !hashVariants {
+			dups = dups[:1]
+		}
+		for _, kv := range dups {
+			k, v := kv[0], kv[1]
+			nop := func(m map[string]json.RawMessage) { delete(m, k) }
+			ts = append(ts, c04Tamper{"twice " + k, "r", nop, false, `"` + k + `":{},"` + k + `":` + v})
+			ts = append(ts, c04Tamper{"thrice " + k, "r", nop, false, `"` + k + `":` + v + `,"` + k + `":1,"` + k + `":` + v})
+			ts = append(ts, c04Tamper{"twice " + k + " + content-add", cls(c04ContentKept(ver, typ, "zzz_extra")), func(m map[string]json.RawMessage) {
+				delete(m, k)
+				c04SetContent(m, "zzz_extra", `"x"`, false)
+			}, false, `"` + k + `":{},"` + k + `":` + v})
+		}
+	}
+	// F66: ONE added top-level member that is in no keep-list but whose name encoding/json matches
+	// to a kept one; for the specification this is redactable material (class r: redacted form of
+	// the original, same event ID, signatures still good)
+	if hashVariants {
+		for _, kv := range [][2]string{{"ſender", `"@mallory:evil"`}, {"Content", `{"membership":"ban","users":{"@mallory:a":100}}`},
+			{"origin_ſerver_ts", `1`}, {"state_Key", `"@mallory:evil"`}, {"state_\u212aey", `"@mallory:evil"`}, {"State_key", `""`}, {"Event_id", `"$forged:a"`},
+			{"Type", `"m.room.create"`}, {"Depth", `1`}, {"hasheſ", `{"sha256":"AAAA"}`}} {
+			k, v := kv[0], kv[1]
+			ts = append(ts, c04Tamper{"lookalike-set " + k, "r", func(m map[string]json.RawMessage) { m[k] = json.RawMessage(v) }, true, ""})
+		}
+	}
 	// two at once
 	add("content-add+unsigned", cls(c04ContentKept(ver, typ, "zzz_extra")), func(m map[string]json.RawMessage) {
 		c04SetContent(m, "zzz_extra", `{"deep":[1,{"x":null}]}`, false)
@@ -505,7 +552,14 @@ func genC04(c *Ctx) {
 					m := c04Obj(b.txt)
 					t.apply(m)
 					txt := c04Marshal(m)
-					c.Run("C04.tamper", [][]byte{B(ver), b.txt, txt, B(""), B(t.class)}, "C04.tamper", "C04.prop.surface",
+					if t.prefix != "" {
+						txt = append([]byte("{"+t.prefix+","), txt[1:]...)
+					}
+					corr := "C04.tamper"
+					if t.propOnly {
+						corr = ""
+					}
+					c.Run("C04.tamper", [][]byte{B(ver), b.txt, txt, B(""), B(t.class)}, corr, "C04.prop.surface",
 						typ+" "+t.name)
 					c.Count("tamper/" + strings.SplitN(t.name, " ", 2)[0] + "/" + t.class)
 				}
